@@ -222,13 +222,15 @@ theorem bytes_reaches (srcLen : Nat) : ∀ (bs : List Word) (btoks rest : List T
     List.Forall₂ ETok.Matches (bs.map .byte) btoks → st.line + bs.length ≤ 65535 →
     ∃ st', Reaches srcLen bs.length (btoks ++ rest) st tbl rest st' tbl ∧
       st'.line = st.line + bs.length ∧ st'.n = st.n + bs.length ∧ st'.orig = st.orig ∧
-      ∃ lines : List AsmLine, st'.stmts = lines.reverse ++ st.stmts ∧ lines.map (·.stmt) = bs.map Stmt.rawWord := by
+      ∃ lines : List AsmLine, st'.stmts = lines.reverse ++ st.stmts ∧ lines.map (·.stmt) = bs.map Stmt.rawWord ∧
+        st'.tokEnd = st.tokEnd ∧
+        ((∀ t ∈ btoks, st.tokEnd ≤ t.span.offs) → lines.map (·.span) = btoks.map (·.span)) := by
   intro bs
   induction bs with
   | nil =>
     intro btoks rest st tbl hm _
     rw [forall₂_nil_left hm]
-    exact ⟨st, Reaches.refl _ _ _ _, rfl, rfl, rfl, [], rfl, rfl⟩
+    exact ⟨st, Reaches.refl _ _ _ _, rfl, rfl, rfl, [], rfl, rfl, rfl, fun _ => rfl⟩
   | cons b bs ih =>
     intro btoks rest st tbl hm hle
     obtain ⟨t, ts, rfl, hk, hm'⟩ := forall₂_cons_left hm
@@ -239,19 +241,22 @@ theorem bytes_reaches (srcLen : Nat) : ∀ (bs : List Word) (btoks rest : List T
       rw [List.cons_append, parseStep_nolabel srcLen t _ st tbl (by rw [hk]; exact fun h => by cases h)]
       have : ¬ st.line + 1 > 65535 := by omega
       simp only [parseLine, hk, finishStmt, this, if_false]
-    obtain ⟨st', hr, h1, h2, h3, lines, h4, h5⟩ :=
+    obtain ⟨st', hr, h1, h2, h3, lines, h4, h5, h6, h7⟩ :=
       ih ts rest { st.addStmt t (.rawWord b) none with line := st.line + 1 } tbl hm'
         (by show st.line + 1 + bs.length ≤ 65535; omega)
     refine ⟨st', (Reaches.step hstep).trans hr, ?_, ?_, h3, ?_⟩
     · rw [h1]; show st.line + 1 + bs.length = _; simp only [List.length_cons]; omega
     · rw [h2]; show st.n + 1 + bs.length = _; simp only [List.length_cons]; omega
-    · obtain ⟨sp, hsp⟩ := addStmt_stmts st t (.rawWord b) none
-      refine ⟨{ line := (st.n + 1) % 65536, stmt := .rawWord b, span := sp } :: lines, ?_, ?_⟩
+    · refine ⟨{ line := (st.n + 1) % 65536, stmt := .rawWord b, span := ⟨t.span.offs,
+          if st.tokEnd ≤ t.span.offs then t.span.len else st.tokEnd - t.span.offs⟩ } :: lines, ?_, ?_, h6, ?_⟩
       · rw [h4]
         show lines.reverse ++ (st.addStmt t (.rawWord b) none).stmts = _
-        rw [hsp]
-        simp only [List.reverse_cons, List.append_assoc, List.cons_append, List.nil_append]
+        simp only [PState.addStmt, List.reverse_cons, List.append_assoc, List.cons_append, List.nil_append]
       · simp only [List.map_cons, h5]
+      · intro hpos
+        have h0 : st.tokEnd ≤ t.span.offs := hpos t List.mem_cons_self
+        simp only [List.map_cons, h0, if_true]
+        rw [h7 (fun x hx => hpos x (List.mem_cons_of_mem _ hx))]
 
 /-- the byte tokens of a data directive whose last word is word 65,535, with nothing after them:
 the statement counter is full, the loop ends with the statements parsed so far -/
@@ -261,7 +266,8 @@ theorem bytes_final (srcLen : Nat) : ∀ (bs : List Word) (b : Word) (btoks : Li
     btoks.length < fuel →
     ∃ air, parseLoop srcLen fuel btoks st tbl = (.ok air, tbl) ∧ air.orig = st.orig ∧
       ∃ lines : List AsmLine, air.stmts = st.stmts.reverse ++ lines ∧
-        lines.map (·.stmt) = (b :: bs).map Stmt.rawWord := by
+        lines.map (·.stmt) = (b :: bs).map Stmt.rawWord ∧
+        ((∀ t ∈ btoks, st.tokEnd ≤ t.span.offs) → lines.map (·.span) = btoks.map (·.span)) := by
   intro bs
   induction bs with
   | nil =>
@@ -275,11 +281,14 @@ theorem bytes_final (srcLen : Nat) : ∀ (bs : List Word) (b : Word) (btoks : Li
       rw [parseStep_nolabel srcLen t _ st tbl (by rw [hk]; exact fun h => by cases h)]
       have : st.line + 1 > 65535 := by omega
       simp only [parseLine, hk, finishStmt, this, if_true]
-    obtain ⟨sp, hsp⟩ := addStmt_stmts st t (.rawWord b) none
     refine ⟨(st.addStmt t (.rawWord b) none).air, by simp only [parseLoop, hstep], rfl,
-      [{ line := (st.n + 1) % 65536, stmt := .rawWord b, span := sp }], ?_, rfl⟩
-    show (st.addStmt t (.rawWord b) none).stmts.reverse = _
-    rw [hsp, List.reverse_cons]
+      [{ line := (st.n + 1) % 65536, stmt := .rawWord b, span := ⟨t.span.offs,
+          if st.tokEnd ≤ t.span.offs then t.span.len else st.tokEnd - t.span.offs⟩ }], ?_, rfl, ?_⟩
+    · show (st.addStmt t (.rawWord b) none).stmts.reverse = _
+      simp only [PState.addStmt, List.reverse_cons]
+    · intro hpos
+      have h0 : st.tokEnd ≤ t.span.offs := hpos t List.mem_cons_self
+      simp only [List.map_cons, List.map_nil, h0, if_true]
   | cons b' bs ih =>
     intro b btoks st tbl fuel hm hle hfuel
     obtain ⟨t, ts, rfl, hk, hm'⟩ := forall₂_cons_left hm
@@ -291,16 +300,20 @@ theorem bytes_final (srcLen : Nat) : ∀ (bs : List Word) (b : Word) (btoks : Li
       rw [parseStep_nolabel srcLen t _ st tbl (by rw [hk]; exact fun h => by cases h)]
       have : ¬ st.line + 1 > 65535 := by omega
       simp only [parseLine, hk, finishStmt, this, if_false]
-    obtain ⟨air, e1, e2, lines, e3, e4⟩ :=
+    obtain ⟨air, e1, e2, lines, e3, e4, e5⟩ :=
       ih b' ts { st.addStmt t (.rawWord b) none with line := st.line + 1 } tbl fuel' hm'
         (by show st.line + 1 + bs.length = 65535; omega) (by omega)
-    obtain ⟨sp, hsp⟩ := addStmt_stmts st t (.rawWord b) none
     refine ⟨air, by simp only [parseLoop, hstep]; exact e1, e2,
-      { line := (st.n + 1) % 65536, stmt := .rawWord b, span := sp } :: lines, ?_, ?_⟩
+      { line := (st.n + 1) % 65536, stmt := .rawWord b, span := ⟨t.span.offs,
+          if st.tokEnd ≤ t.span.offs then t.span.len else st.tokEnd - t.span.offs⟩ } :: lines, ?_, ?_, ?_⟩
     · rw [e3]
       show (st.addStmt t (.rawWord b) none).stmts.reverse ++ lines = _
-      rw [hsp, List.reverse_cons, List.append_assoc]; rfl
+      simp only [PState.addStmt, List.reverse_cons, List.append_assoc]; rfl
     · rw [List.map_cons, e4]; rfl
+    · intro hpos
+      have h0 : st.tokEnd ≤ t.span.offs := hpos t List.mem_cons_self
+      simp only [List.map_cons, h0, if_true]
+      rw [e5 (fun x hx => hpos x (List.mem_cons_of_mem _ hx))]
 
 /-! ### one statement -/
 
@@ -475,7 +488,7 @@ theorem stmt_reaches (names : Nat → List Char) (srcLen : Nat) (ow : Word) (lab
     obtain ⟨h1, h2, h3, _⟩ := data_stmt hs hren lab (addrOf ow (k + 1))
     rw [h2] at hw; cases hw
     rw [h1] at hm
-    obtain ⟨st', hr, a1, a2, a3, lines, a4, a5⟩ :=
+    obtain ⟨st', hr, a1, a2, a3, lines, a4, a5, _, _⟩ :=
       bytes_reaches srcLen (dataWords s) stoks rest st tbl hm (by rw [hline, ← h3]; omega)
     refine ⟨(dataWords s).length, st', ?_, hr, ?_, ?_, a3, lines, a4, ?_⟩
     · rw [forall₂_length hm, List.length_map]; exact Nat.le_refl _
@@ -540,7 +553,7 @@ theorem stmt_final (names : Nat → List Char) (srcLen : Nat) (ow : Word) (lab :
     | cons b bs =>
       rw [hd] at hm h3
       simp only [List.length_cons] at h3
-      obtain ⟨air, e1, e2, lines, e3, e4⟩ :=
+      obtain ⟨air, e1, e2, lines, e3, e4, _⟩ :=
         bytes_final srcLen bs b stoks st tbl fuel hm (by omega) hfuel
       exact ⟨air, e1, e2, lines, e3, fun tblF _ _ => finishAll_raw tblF ow lines _ e4⟩
   | some p =>
